@@ -55,6 +55,14 @@ BUILT = {
    tech="exhaustive enumeration of all mid-price paths with moves in {-2..2} ticks up to a length bound (harness re-quotes a deep market), crossed with parameter grid and scripted per-trader decision draws; oracle recomputes M; mirrored-run differential",
    text="The harness imposes every mid-price path over moves {-2,-1,0,+1,+2} ticks up to the stated length and scripts the generator of the judged update (default, all-zero, all-ones, mid, and with order ratio 0 every combination of {0, p-eps, p+eps, 1-eps} per trader). M is recomputed from observed mids; at saturation exactly one market (and limit) order per trader on the side of sign(M), nothing at M = 0, action iff draw < |p| otherwise; the same script on the mirrored path must give the mirrored order flow.",
    note="Trusted: the documented recurrence for M; lognormal price offsets are only checked through the mirror differential."),
+ "C09": dict(cat="exploration", engine="c09", ref="§3 C09",
+   tech="bounded-exhaustive cross product of a configuration grid with every enumerated nondeterminism dimension (repeat in-process, 3 child processes, both progress-bar branches, hand-written loop with recording generator, play-back of the recorded word stream); digests must agree",
+   text="Every point of a finite grid (7 derive-macro agent compositions incl. a nested set x {Env, MarketEnv<2>} x seeds x step counts x tick {1,2,5} x step size {100,10^6}) is run by the library runner twice in-process, in three fresh OS processes (progress bar off/on/off), by a hand-written update/step loop around a recording Xoroshiro128**, and by the same loop fed the recorded words back; all complete-output digests must agree and distinct seeds must give distinct outputs. Exhaustive over the grid and the enumerated dimensions, but seeds are an unbounded domain, hence claimed as exploration.",
+   note="Not model checking: the seed domain is sampled by a finite list; the check is the uncontrolled-nondeterminism gate the other checks rely on."),
+ "C20": dict(cat="model_checking", engine="c20 (build.rs generated programs)", ref="§3 C20",
+   tech="exhaustive enumeration of struct shapes (all field-kind words of length 1..4 over {probe A, probe B, nested derived set} + 14 shapes of 5..8 fields, both derive macros), each compiled into the harness and compared call-by-call and draw-by-draw with the flattened hand-written sequence",
+   text="For each generated struct the derived update and the hand-written self.f0.update(env, rng); ... (nested sets flattened) are run on fresh environments with the same seed, twice with a step in between; the probe log (field tag, fingerprint of the environment it was handed, first draw), the final orders and the next generator word must be identical.",
+   note="Programs are limited to named-field structs built from the two probe types and a nested derived set; 1..8 fields."),
  "C12": dict(cat="model_checking", engine="seqx+envx", ref="§3 C12",
    tech="exhaustive bounded-depth enumeration with on- and off-grid prices offered to create, create_and_place and modify at every point of every history; grid monitor",
    text="Ticks 2,3,5,10 with off-grid neighbours of grid prices offered to every creating and modifying entry point at every point of every history to the stated depth; rejected creations must leave the snapshot untouched; every resting price on the grid; published levels account for all resting volume in range.",
